@@ -87,6 +87,8 @@ H("fastrace", "local::span_queue", "sq_attach_under_innermost", ["C06", "C18"],
   sym="id generator state, clock", bound="fixed sequence: event / properties at depth 0,1,2 and after a child finished; 6 records", models=SQM)
 H("fastrace", "local::span_queue", "sq_attach_after_child_finished", ["C06"],
   sym="id generator state, clock", bound="fixed sequence: child's own property, child finishes, a property for the parent with nothing recorded in between; 4 records", models=SQM, mem_gb=24, cap_s=1200)
+H("fastrace", "local::span_queue", "sq_step_add_properties_after_foreign_properties", ["C06"],
+  sym="id and target of the existing Properties record, the current local parent (any ids, different targets)", bound="one add_properties from a queue built directly with one Properties record of another target", models=SQM, mem_gb=24, cap_s=1200)
 H("fastrace", "local::span_queue", "sq_with_properties_hits_handle", ["C06"], tier="thorough", mem_gb=20,
   sym="which of the two open spans the handle denotes", bound="two open spans, one with_properties call on a symbolic choice of them", models=SQM)
 for _c in (1, 2):
